@@ -356,6 +356,7 @@ def build(ctx, san=False):
         jobs.append(dict(srcs=[os.path.join(H, "impl.cc")], out=ctx.path("impl_san"), san=True, flags=["-I" + H]))
     outs = V.cxx_many(ctx, jobs)
     deep = None
+    ctx.simd_exe = V.cxx(ctx, [os.path.join(H, "simd.cc")], ctx.path("simd"), opt="-O1", flags=["-I" + H])
     try:
         deep = V.cxx(ctx, [os.path.join(H, "deep.cc")], ctx.path("deep"), opt="-O1", flags=["-I" + H])
     except V.BuildError as e:
@@ -463,7 +464,15 @@ def field_instance_stage(ctx, cases, mo):
     pick = sorted(set(idx[:13] + big[::max(1, len(big) // k1)] + small[::max(1, len(small) // k2)]))
     vf = ctx.path("field_cases.v")
     open(vf, "w").write(field_cases_v([cases[i] for i in pick]))
-    rc, out = V.sh(["coqc", "-Q", V.COQ, "DuneV", "-w", "none", vf], cwd=ctx.build, timeout=900)
+    for attempt in range(4):
+        rc, out = V.sh(["coqc", "-Q", V.COQ, "DuneV", "-w", "none", vf], cwd=ctx.build, timeout=900)
+        if rc == 0 or "inconsistent assumptions" not in out:
+            break
+        # a concurrent check of ANOTHER tree regenerated coq/Params_gen.v between our Coq stage and this one (shared coq/
+        # directory): regenerate it for our tree, rebuild the model and try again — this is not a verdict about the property
+        ctx.notes.append("field-instance stage: Params_gen.vo changed under us (concurrent run), rebuilt and retried (%d)" % (attempt + 1))
+        params_hook(ctx)
+        V.coq_make(["C02_Spec.vo"])
     got = parse_out(out) if rc == 0 else []
     bad = 0
     if rc != 0 or len(got) != len(pick):
@@ -479,6 +488,190 @@ def field_instance_stage(ctx, cases, mo):
     ctx.coverage["field_instance_cases"] = len(pick)
     ctx.coverage["field_instance_disagreements"] = bad
     return len(pick)
+
+
+# ----------------------------------------------------------------------------- SIMD field types (lanes)
+# FieldMatrix<LoopSIMD<double,L>,n,n> / DynamicMatrix<LoopSIMD<double,4>>, n = 4..6: the property applied lane-wise.
+# Lanes are small-integer matrices on which the scalar elimination (same pivot rule) is EXACT in binary floating point
+# (every pivot met is +-2^k, checked by simulating the algorithm in rational arithmetic), so the doubles printed by the
+# harness are compared exactly with rational arithmetic: any exactly singular lane => FMatrixError from solve / invert,
+# determinant 0 in singular lanes and the exact determinant in the others, regular-lane results exact, inputs unchanged.
+from fractions import Fraction
+
+
+def _pow2(fr):
+    a, d = abs(fr.numerator), fr.denominator
+    return a != 0 and (a & (a - 1)) == 0 and (d & (d - 1)) == 0
+
+
+def lu_sim(A, piv):
+    """the scalar algorithm of luDecomposition in exact rational arithmetic: ('ok' | ('zero', step), exact_in_double)"""
+    n = len(A); M = [[Fraction(x) for x in r] for r in A]; exact = True
+    for i in range(n):
+        if piv:
+            im, pm = i, abs(M[i][i])
+            for k in range(i + 1, n):
+                if abs(M[k][i]) > pm:
+                    pm, im = abs(M[k][i]), k
+            M[i], M[im] = M[im], M[i]
+        if M[i][i] == 0:
+            return ("zero", i), exact
+        if not _pow2(M[i][i]):
+            exact = False
+        for k in range(i + 1, n):
+            f = M[k][i] / M[i][i]
+            for j in range(i + 1, n):
+                M[k][j] -= f * M[i][j]
+            M[k][i] = f
+    if any(abs(x.numerator) >= 2 ** 40 or x.denominator >= 2 ** 40 for r in M for x in r):
+        exact = False
+    return "ok", exact
+
+
+def frac_solve(A, B):
+    """exact Gauss-Jordan: returns (det, X) with A X = B (X None when singular); B: list of columns as rows of length n each"""
+    n = len(A); M = [[Fraction(x) for x in r] + [Fraction(B[i][j]) for j in range(len(B[0]))] for i, r in enumerate(A)]
+    det = Fraction(1)
+    for c in range(n):
+        r = next((k for k in range(c, n) if M[k][c] != 0), None)
+        if r is None:
+            return Fraction(0), None
+        if r != c:
+            M[c], M[r] = M[r], M[c]; det = -det
+        det *= M[c][c]
+        pv = M[c][c]; M[c] = [x / pv for x in M[c]]
+        for k in range(n):
+            if k != c and M[k][c] != 0:
+                f = M[k][c]; M[k] = [x - f * y for x, y in zip(M[k], M[c])]
+    return det, [r[n:] for r in M]
+
+
+def simd_parse(case):
+    t = case.split(); kind, op, n, piv = t[1], t[2], int(t[3]), int(t[4])
+    L = 2 if kind == "S2" else 4
+    v = [int(x) for x in t[5:]]; per = n * n + (n if op == "solve" else 0)
+    lanes = []
+    for l in range(L):
+        w = v[l * per:(l + 1) * per]
+        lanes.append(([w[i * n:(i + 1) * n] for i in range(n)], w[n * n:]))
+    return kind, op, n, piv, L, lanes
+
+
+def simd_oracle(case, obs):
+    kind, op, n, piv, L, lanes = simd_parse(case)
+    if obs.startswith(("CRASH", "HANG", "NOT-RUN", "BAD-CASE")):
+        return ("crash", "impl did not return: %s" % obs)
+    main, _, flag = obs.partition(" | ")
+    if flag.strip() != "U":
+        return ("inputs-modified", "A or b modified: %s" % obs[:80])
+    info = []
+    for A, b in lanes:
+        d, _ = frac_solve(A, [[0] for _ in range(n)])
+        info.append((d, lu_sim(A, piv)[0]))
+    anysing = any(d == 0 for d, st in info)
+    anyzero = any(st != "ok" for d, st in info)
+    if op in ("solve", "invert"):
+        if anysing:
+            return None if main == "EXC FMatrixError" else ("simd-singular-lane-not-reported",
+                   "lane(s) %s exactly singular (n = %d) but %s" % ([i for i, (d, st) in enumerate(info) if d == 0], n, main[:120]))
+        if main == "EXC FMatrixError":
+            return None if anyzero else ("nonsingular-error", "all lanes regular and elimination defined, but FMatrixError")
+    if not main.startswith("OK"):
+        return ("format", obs[:80])
+    try:
+        got = [[Fraction(float(x)) for x in q.split()] for q in main[2:].split(";")]
+    except Exception:
+        return ("simd-wrong-lane-result", "non-finite or unparsable lane values: %s" % main[:160])
+    if len(got) != L:
+        return ("format", "lane count")
+    for l, (A, b) in enumerate(lanes):
+        d, st = info[l]
+        if op == "det":
+            if d == 0:
+                want = [Fraction(0)]
+            elif st == "ok":
+                want = [d]
+            else:
+                continue                               # regular lane, unpivoted elimination undefined: property silent
+        elif op == "solve":
+            want = [r[0] for r in frac_solve(A, [[x] for x in b])[1]]
+        else:
+            I = [[int(i == j) for j in range(n)] for i in range(n)]
+            want = [x for r in frac_solve(A, I)[1] for x in r]
+        if got[l] != want:
+            return ("simd-wrong-lane-result", "lane %d: got %s, exact %s" % (l, [float(x) for x in got[l]][:8], [float(x) for x in want][:8]))
+    return None
+
+
+def simd_gen(ctx):
+    rng = ctx.rng("simd")
+    cases = []
+    for n in (4, 5, 6):
+        for piv in (0, 1):
+            reg, sing = [], {s: [] for s in range(n)}
+            tries = 0
+            while tries < 6000 and (len(reg) < 24 or any(len(sing[s]) < 3 for s in range(n))):
+                tries += 1
+                perm = list(range(n)); rng.shuffle(perm)
+                zs = set() if rng.random() < 0.45 else {rng.randrange(n)}
+                Lm = [[(1 if i == j else (rng.choice([-1, 0, 0, 1]) if j < i else 0)) for j in range(n)] for i in range(n)]
+                U = [[(0 if j < i else ((0 if i in zs else rng.choice([-2, -1, 1, 2])) if i == j else rng.choice([-2, -1, 0, 0, 1, 2]))) for j in range(n)] for i in range(n)]
+                M = [[sum(Lm[i][k] * U[k][j] for k in range(n)) for j in range(n)] for i in range(n)]
+                A = [M[perm[i]] for i in range(n)] if (piv or rng.random() < 0.3) else M
+                st, ex = lu_sim(A, piv)
+                if not ex or max(abs(x) for r in A for x in r) > 9:
+                    continue
+                if st == "ok":
+                    if len(reg) < 24:
+                        reg.append(A)
+                elif frac_solve(A, [[0] for _ in range(n)])[0] == 0 and len(sing[st[1]]) < 3:
+                    sing[st[1]].append(A)
+            if len(reg) < 4:
+                continue
+            kinds = ["S2", "S4", "T4"] if n == 4 or not ctx.quick else (["S2", "S4"] if n == 5 else ["S4", "T4"])
+            for kind in kinds:
+                L = 2 if kind == "S2" else 4
+                pats = [[None] * L, [None] * L]                                   # all lanes regular
+                for s in range(n):                                                 # exactly one singular lane, at every step
+                    if sing[s]:
+                        pat = [None] * L; pat[(s + n) % L] = s; pats.append(pat)
+                allsing = [s for s in range(n) if sing[s]]
+                if allsing:
+                    pats.append([rng.choice(allsing) for _ in range(L)])           # all lanes singular
+                    pat = [None] * L; pat[0] = allsing[0]; pat[L - 1] = allsing[-1]; pats.append(pat)
+                for pat in pats:
+                    lanesA = [(rng.choice(sing[s]) if s is not None else rng.choice(reg)) for s in pat]
+                    for op in ("solve", "invert", "det"):
+                        vals = []
+                        for A in lanesA:
+                            vals += [x for r in A for x in r]
+                            if op == "solve":
+                                vals += [rng.randrange(-3, 4) for _ in range(n)]
+                        cases.append("0 %s %s %d %d %s" % (kind, op, n, piv, " ".join(map(str, vals))))
+    return cases
+
+
+def simd_stage(ctx, exe):
+    cases = simd_gen(ctx)
+    cp = os.path.join(V.VERIF, "corpus", "C02", "simd.txt")
+    if os.path.exists(cp):
+        cases = [l.strip() for l in open(cp) if l.strip() and not l.startswith("#")] + cases
+    out = V.run_cases(ctx, [exe], cases, tag="simd", timeout=120)
+    rej = 0; pat = {}
+    for c, a in zip(cases, out):
+        r = simd_oracle(c, a)
+        k = a.split(" | ")[0].split()[0:2]; k = " ".join(k) if k and k[0] == "EXC" else "OK"
+        pat[k] = pat.get(k, 0) + 1
+        if r is not None:
+            rej += 1
+            if rej <= 20:
+                t = c.split()
+                ctx.violation("C02:%s:%s:n>=4:%s" % (t[2], t[1], r[0]), {"case": c, "impl": a, "oracle": r[1], "mode": "simd",
+                                                                          "replay_cmd": "bin/check C02 --replay <this file>"})
+    ctx.coverage["simd_stream"] = {"cases": len(cases), "oracle_rejections": rej, "impl_outcomes": pat,
+                                   "what": "FieldMatrix<LoopSIMD<double,2|4>,n,n>, DynamicMatrix<LoopSIMD<double,4>>, n=4..6, lanes with different pivot patterns: "
+                                           "all regular / one exactly singular lane at every elimination step / several / all singular; pivoting on and off"}
+    return len(cases)
 
 def params_hook(ctx):
     V.sh([sys.executable, os.path.join(V.VERIF, "tools", "extract_params.py"), ctx.repo], check=True)
@@ -496,6 +689,7 @@ def run(ctx):
     io = V.run_cases(ctx, [impl], cases, tag="impl", timeout=60 if ctx.quick else 300)
     stats = judge(ctx, cases, mo, io)
     nfield = field_instance_stage(ctx, cases, mo)
+    nsimd = simd_stage(ctx, ctx.simd_exe)
     # the build with DUNE_FMatrix_WITH_CHECKING (non-default mode): all dense cases of size <= 4
     cc = [c for c in cases if c.split()[1] in "FDXY" and c.split()[2] in ("solve", "invert", "det", "seq") and int(c.split()[3]) <= 4]
     cmo = V.run_cases(ctx, [model, "chk"], cc, tag="cmodel", timeout=600)
@@ -563,7 +757,7 @@ def run(ctx):
     except Exception:
         pass
     ctx.coverage["with_checking_build"] = dict(cases=len(cc), **cstats)
-    ctx.coverage["evaluations"] += len(cc) + nfield
+    ctx.coverage["evaluations"] += len(cc) + nfield + nsimd
     ctx.coverage["traces_validated_against_impl"] += len(cc)
     ctx.assumptions += [
         "the model code is polymorphic in the record of field operations; theorems are about its instance at a mathcomp fieldType, the "
@@ -600,6 +794,12 @@ def fp_test(ctx):
 def replay(ctx, path):
     rep = json.load(open(path))
     case = rep["case"]
+    if rep.get("mode") == "simd" or case.split()[1] in ("S2", "S4", "T4"):
+        exe = V.cxx(ctx, [os.path.join(H, "simd.cc")], ctx.path("simd"), opt="-O1", flags=["-I" + H])
+        io = V.run_cases(ctx, [exe], [case], tag="rsimd", timeout=20)
+        r = simd_oracle(case, io[0])
+        print("case  :", case, "(SIMD lanes)"); print("impl  :", io[0]); print("oracle:", r[1] if r else "accepts")
+        return 1 if r else 0
     model = V.build_model(ctx)
     chk = rep.get("mode") == "chk"
     impl = V.cxx(ctx, [os.path.join(H, "impl.cc")], ctx.path("impl_chk" if chk else "impl"), opt="-O1",
